@@ -95,6 +95,8 @@ class Ctx:
         if self.case_builder is None:
             raise HarnessError("violation without a case builder: %s" % (v.kind if v else ""))
         case = self.case_builder(model)
+        if case is None:
+            raise HarnessError("counterexample model is not representable as a concrete input: %s" % (v.kind if v else ""))
         if v is not None:
             case["violation_kind"] = v.kind
         case["cfg"] = self.cfg
@@ -112,6 +114,8 @@ class Ctx:
             n = eng.live_paths
             if n <= 2 or (n & (n - 1)) == 0:
                 case = self.case_builder(m)
+                if case is None:        # model not representable as a concrete input (skipped, not validated)
+                    return
                 case["cfg"] = self.cfg
                 self.samples.append(case)
                 if len(self.path_samples) < 2:
